@@ -239,3 +239,16 @@ func WriteShard(path, imports string, cases []string) error {
 	b.WriteString("].\nDefinition bad := Eval vm_compute in (check_cases cases 0%N).\nPrint bad.\nDefinition st := Eval vm_compute in (stats cases).\nPrint st.\n")
 	return os.WriteFile(path, []byte(b.String()), 0o644)
 }
+
+// ---------------------------------------------------------------- job runner
+//
+// Scenarios run in child processes (the harness re-executes itself): a panic
+// or a wedged device costs one scenario, not the run, slow scenarios run
+// beside the others, and goroutines leaked by a device that no longer closes
+// cannot disturb the quiescence detector of later scenarios.
+//
+// Child protocol: "<exe> <same args> -child lo:hi -childout file" runs jobs
+// lo..hi-1 in order and rewrites file (a JSON array, one element per finished
+// job) after every job.  Exit 0 = all done; exit 3 = the last finished job left
+// the process unusable, continue after it; anything else = the job after the
+// last finished one crashed.
